@@ -297,7 +297,7 @@ fn meta_menu() -> Vec<Meta> {
 pub fn run(run: &mut Run) -> Finish {
     let tier = run.ctx.tier;
     // slice 1: every function map of the space, single source, 4 encodings, full token grid
-    let kmax = tier.pick(4usize, 6);
+    let kmax = tier.pick(5usize, 9);
     let mut fms: Vec<(Vec<usize>, usize)> = vec![]; // (subset of the 9 positions, k)
     for k in 0..=kmax {
         for s in subsets_k(9, k) {
@@ -305,7 +305,7 @@ pub fn run(run: &mut Run) -> Finish {
         }
     }
     let nf = fms.len() as u64;
-    run.par_slice("function maps: every strictly increasing entry list of <= 4/6 entries over lines {1,2,4} x cols {0,4,9}, every name-index assignment over {0,1,2,3(out of range)}, 4 encodings, token grid of 31 original positions", 1, nf, |idx, l| {
+    run.par_slice("function maps: every strictly increasing entry list of <= 5/9 entries over lines {1,2,4} x cols {0,4,9}, every name-index assignment over {0,1,2,3(out of range)}, 4 encodings, token grid of 31 original positions", 1, nf, |idx, l| {
         let (pos, k) = &fms[(idx & 0xffff_ffff) as usize];
         let mut sub = 0u64;
         for na in 0..4u64.pow(*k as u32) {
